@@ -501,8 +501,13 @@ class Summariser:
                                 self._assign_local(st3, t.a[0], v3)
                             else:
                                 cur = st3.env.get(t.a[0]) or mk('var', t.a[0])
-                                self._assign_local(st3, t.a[0], simplify(
-                                    mk('bin', op[:-1], cclone(cur), cclone(v3))))
+                                new = simplify(mk('bin', op[:-1], cclone(cur), cclone(v3)))
+                                if cur.k == 'const' and v3 is not None and v3.k == 'const' \
+                                        and isinstance(cur.a[0], int) and \
+                                        isinstance(v3.a[0], int) and op in ('+=', '-='):
+                                    new = mk('const', cur.a[0] + v3.a[0] if op == '+='
+                                             else cur.a[0] - v3.a[0])
+                                self._assign_local(st3, t.a[0], new)
                         else:
                             rt = csubst(t, st3.env)
                             st3.events.append(CEv('store', rt, v3, n, fn))
@@ -510,7 +515,12 @@ class Summariser:
             return
         if x.k == 'un' and x.a[0].startswith(('++', '--')) and x.a[1].k == 'var':
             nm = x.a[1].a[0]
-            st.env.pop(nm, None)
+            cur = st.env.get(nm)
+            if cur is not None and cur.k == 'const' and isinstance(cur.a[0], int):
+                d = 1 if x.a[0].startswith('++') else -1
+                st.env[nm] = mk('const', cur.a[0] + d)
+            else:
+                st.env.pop(nm, None)
             st.ver[nm] = st.tick()
             yield st
             return
@@ -535,6 +545,15 @@ class Summariser:
         out = []
         maxv = {n.id: (2 if (n.e is not None and n.e.k == 'loophead') else 1)
                 for n in g.nodes}
+        # the tests of a loop condition are evaluated once more to leave it
+        for n in g.nodes:
+            if n.e is not None and n.e.k == 'loophead':
+                todo = [m for m, lab in n.succ]
+                while todo:
+                    m = todo.pop()
+                    if m.kind == 'test' and maxv[m.id] == 1:
+                        maxv[m.id] = 2
+                        todo.extend(x for x, lab in m.succ)
         init = _State()
         for p, _t in f.params:
             init.ver[p] = 0
